@@ -137,6 +137,19 @@ class CatchFrame(object):
         return c
 
 
+class ThreadFrame(object):
+    """pseudo frame: the frames above run on another modelled thread"""
+    __slots__ = ("prev_thread", "dest", "target")
+
+    def __init__(self, prev_thread, dest, target):
+        self.prev_thread = prev_thread
+        self.dest = dest
+        self.target = target
+
+    def copy(self):
+        return ThreadFrame(self.prev_thread, self.dest, self.target)
+
+
 class Token(object):
     pass
 
@@ -167,6 +180,8 @@ class State(object):
         self.detail = None
         self.heap_live = 0
         self.notes = []
+        self.sets = None
+        self.thread_counter = 0
 
     def clone(self):
         s = State.__new__(State)
@@ -190,6 +205,8 @@ class State(object):
         s.const_allocs = dict(self.const_allocs)
         s.steps = self.steps
         s.thread = self.thread
+        s.thread_counter = getattr(self, 'thread_counter', 0)
+        s.sets = getattr(self, 'sets', None)
         s.decisions = list(self.decisions)
         s.outcome = None
         s.detail = None
